@@ -207,3 +207,47 @@ Proof.
   unfold count. simpl. destruct (Z.eqb j i) eqn:E2; [|reflexivity].
   apply Z.eqb_eq in E2. apply sig_eqb_eq in E. subst. exfalso. apply (H (snd x)). left. destruct x; reflexivity.
 Qed.
+
+(* ------------------------------------------------------------------ phases in which nobody raises *)
+Lemma raiser_none_cut fired L : raiser fired L = None -> cut fired L = L.
+Proof.
+  induction L as [|l r IH]; simpl; [reflexivity|].
+  destruct (is_raise (snd l) && live fired (fst l)); [discriminate|]. intros H. rewrite (IH H). reflexivity.
+Qed.
+Lemma praiser_none_pcut fired items : praiser fired items = None -> pcut fired items = items.
+Proof.
+  induction items as [|it r IH]; simpl; [reflexivity|].
+  destruct (snd it && live fired (snd (fst it))); [discriminate|]. intros H. rewrite (IH H). reflexivity.
+Qed.
+
+Section Quiet.
+Context {K : Type}.
+
+Lemma posts_x_quiet fired s (k : K) id L :
+  p_raised (posts_x fired s k id L) = false ->
+  p_tr (posts_x fired s k id L) = run_posts s k id (posts s L) /\ p_fired (posts_x fired s k id L) = fired.
+Proof.
+  unfold posts_x. cbn [p_raised p_tr p_fired].
+  destruct (praiser fired (post_items s L)) eqn:E; [discriminate|]. intros _.
+  rewrite (praiser_none_pcut _ _ E). split; reflexivity.
+Qed.
+
+Lemma after_x_quiet tab fired s (k : K) id :
+  p_raised (after_x tab fired s k id) = false ->
+  p_tr (after_x tab fired s k id) = after_part tab s k id /\ p_fired (after_x tab fired s k id) = fired.
+Proof.
+  unfold after_x, after_part. destruct (raiser fired (sel s tab)) eqn:E; cbn [p_raised p_tr p_fired]; [discriminate|].
+  intros H. destruct (posts_x_quiet fired s k id (sel s tab) H) as [H1 H2]. rewrite H1, H2. split; reflexivity.
+Qed.
+
+(* whoever raises, a phase of signal s delivers only s *)
+Lemma no_other_sig_posts_x s' fired s (k : K) id L : existsb (is_sig s') (p_tr (posts_x fired s k id L)) = false.
+Proof. unfold posts_x. cbn [p_tr]. apply no_sig_run_posts. Qed.
+Lemma no_other_sig_after_x tab s' fired s (k : K) id :
+  sig_eqb s' s = false -> existsb (is_sig s') (p_tr (after_x tab fired s k id)) = false.
+Proof.
+  intros H. unfold after_x. destruct (raiser fired (sel s tab)); cbn [p_tr].
+  - apply no_other_sig_events. exact H.
+  - rewrite existsb_app, (no_other_sig_events _ _ _ _ _ _ H), no_other_sig_posts_x. reflexivity.
+Qed.
+End Quiet.
